@@ -112,6 +112,17 @@ fn c01_build(cfg: &[u16]) -> Built {
             ch.operators = vec!["n1".into(), "ghost".into(), format!("n{}", users - 1)];
             ch.half_operators = vec!["n2".into()];
             ch.voices = vec!["n3".into(), "n1".into(), "phantom".into()];
+            // any of the lists may be absent from the file (a rank is then first granted by MODE)
+            for k in 0..4 {
+                if s.chance(35) {
+                    match k {
+                        0 => ch.operators.clear(),
+                        1 => ch.half_operators.clear(),
+                        2 => ch.voices.clear(),
+                        _ => ch.protecteds = vec!["n1".into()],
+                    }
+                }
+            }
             c.channels.push(ch);
             for i in 0..users {
                 if s.chance(55) {
@@ -333,7 +344,43 @@ fn invitation_used_up(eng: &mut crate::engine::Engine, xs: &mut ExtraState, outs
 }
 
 fn c07_extra(eng: &mut crate::engine::Engine, xs: &mut ExtraState, outs: &[StepOut]) -> Result<(), Viol> {
-    invitation_used_up(eng, xs, outs, "C07")
+    invitation_used_up(eng, xs, outs, "C07")?;
+    // after every MODE on a channel - accepted or refused - the admission rules are what the model
+    // says they are: two outsiders try to join (and leave again if they got in)
+    let Some(last) = outs.last() else { return Ok(()) };
+    if !(last.sent.starts_with("MODE #") || last.sent.starts_with("MODE &")) {
+        return Ok(());
+    }
+    let ch = last.sent.split(' ').nth(1).unwrap_or("").to_string();
+    let Some(co) = eng.model.chans.get(&ch).cloned() else { return Ok(()) };
+    let outsiders: Vec<String> = eng.model.users.keys().filter(|n| !co.members.contains_key(*n)).take(2).cloned().collect();
+    for o in outsiders {
+        let Some(c) = eng.model.conn_of(&o) else { continue };
+        let key = co.key.clone().filter(|_| xs.counters.get("admission_probes").copied().unwrap_or(0) % 3 != 0);
+        let line = match key {
+            Some(k) => format!("JOIN {} {}", ch, k),
+            None => format!("JOIN {}", ch),
+        };
+        let mut out = eng.line(c, &line);
+        out.ctx = "JOIN".into();
+        *xs.counters.entry("admission_probes".into()).or_insert(0) += 1;
+        let owns_all = |d: &Disc, _o: &StepOut| not_panic(d);
+        let pol = Policy { id: "C07", owns: &owns_all };
+        if let Verdict::Violation(mut v) = judge(&pol, eng, &out) {
+            v.explanation = format!("admission probe after `{}`: {}", last.sent, v.explanation);
+            v.signature = format!("admission:{}", v.signature);
+            return Err(v);
+        }
+        if eng.model.chans.get(&ch).map_or(false, |c2| c2.members.contains_key(&o)) {
+            let mut out = eng.line(c, &format!("PART {}", ch));
+            out.ctx = "JOIN".into();
+            if let Verdict::Violation(v) = judge(&pol, eng, &out) {
+                return Err(v);
+            }
+        }
+    }
+    xs.invited = eng.model.users.values().flat_map(|u| u.invited.iter().map(move |c| (u.nick.clone(), c.clone()))).collect();
+    Ok(())
 }
 
 fn c09_extra(eng: &mut crate::engine::Engine, xs: &mut ExtraState, outs: &[StepOut]) -> Result<(), Viol> {
@@ -425,6 +472,8 @@ fn c08_enforce(eng: &mut crate::engine::Engine, xs: &mut ExtraState, outs: &[Ste
     if applied.contains('m') || applied.contains('n') || applied.contains('s') || applied.contains('v') {
         if let Some(m) = &plain_member {
             lines.push((m.clone(), format!("PRIVMSG {} :enforcement probe", ch)));
+            // (a status-addressed copy is governed by the same rules)
+            lines.push((m.clone(), format!("PRIVMSG {}{} :enforcement probe to a status", ["+", "@", "%", "~&@%+"][(eng.model.users.len() + applied.len()) % 4], ch)));
         }
         if let Some(o) = &outsider {
             lines.push((o.clone(), format!("PRIVMSG {} :enforcement probe from outside", ch)));
@@ -1329,8 +1378,11 @@ pub fn c03_config(k: usize) -> (CfgSpec, Vec<String>, Vec<String>) {
     c.opers.push(OperSpec { name: "op0".into(), password: "operpw0".into(), mask: None });
     let mut pw = vec!["otherpass".to_string()];
     let mut un = vec![];
+    // (the configured name has a capital letter in half of the configurations: names are
+    // case-sensitive like everything else)
+    let uname = if k / 8 % 2 == 1 { "CfgU" } else { "cfgu" };
     let user = |password: Option<&str>, mask: Option<&str>| crate::cfgspec::UserSpec {
-        name: "cfgu".into(),
+        name: uname.into(),
         nick: "cfgnick".into(),
         password: password.map(|s| s.to_string()),
         mask: mask.map(|s| s.to_string()),
@@ -1343,33 +1395,33 @@ pub fn c03_config(k: usize) -> (CfgSpec, Vec<String>, Vec<String>) {
         }
         2 => {
             c.users.push(user(None, None));
-            un.push("cfgu".into());
+            un.push(uname.into());
         }
         3 => {
             c.users.push(user(Some("userpass"), None));
-            un.push("cfgu".into());
+            un.push(uname.into());
             pw.push("userpass".into());
         }
         4 => {
             c.password = Some("srvpass".into());
             c.users.push(user(Some("userpass"), None));
-            un.push("cfgu".into());
+            un.push(uname.into());
             pw.push("userpass".into());
             pw.push("srvpass".into());
         }
         5 => {
             c.users.push(user(None, Some("*!*@192.168.*")));
-            un.push("cfgu".into());
+            un.push(uname.into());
         }
         6 => {
             c.users.push(user(Some("userpass"), Some("*!~cfgu@10.0.0.*")));
-            un.push("cfgu".into());
+            un.push(uname.into());
             pw.push("userpass".into());
         }
         _ => {
             c.password = Some("srvpass".into());
             c.users.push(user(None, Some("n1!*@*")));
-            un.push("cfgu".into());
+            un.push(uname.into());
             pw.push("srvpass".into());
         }
     }
@@ -1379,7 +1431,7 @@ pub fn c03_config(k: usize) -> (CfgSpec, Vec<String>, Vec<String>) {
 fn c03_build(cfg: &[u16]) -> Built {
     let mut s = S::new(cfg);
     s.raw();
-    let (c, pw, un) = c03_config(s.pick(8));
+    let (c, pw, un) = c03_config(s.pick(16));
     let mut prof = Profile::base().with(&[
         (K::RegLine, 64),
         (K::Contend, 8),
@@ -1492,7 +1544,7 @@ pub fn run_c03(ctx: &RunCtx) -> Vec<PartOutcome> {
     parts.push(enumerate(
         ctx,
         "sequences_exhaustive",
-        per_cfg * 8,
+        per_cfg * 16,
         |i| {
             let config = (i / per_cfg) as usize;
             let mut idx = i % per_cfg;
